@@ -645,7 +645,10 @@ def gen_script(rk, spec, kind, p=None):
         # non-negative integers (otherwise molecule counts go negative and propensities lose their meaning)
         import numpy as _np
         if not _np.all(m.x0 == _np.floor(m.x0)):
-            isp = "auto"
+            # (tau-leap tolerates fractional amounts - its guards turn non-positive means into zero draws - so some
+            #  profiles keep 'none' there: the state must then be passed through untouched)
+            if not (kind == "tauleap" and rk.chance(p.get("tauleap_fractional_none", 0.0))):
+                isp = "auto"
     return {"kind": kind, "dt": dt, "t_sample": ts, "t_max": t_max, "policy": policy, "interval": interval,
             "seed": seed, "isp": isp, "ongrid": ongrid, "steps": steps}
 
